@@ -98,6 +98,9 @@ func (t *token) Float64() float64 {
 }
 
 func (t *token) Append(b *token) {
+	if b == nil { // e.g. the right operand of "x /;": an empty statement where an expression is needed
+		panicf("missing operand")
+	}
 	t.Tokens = append(t.Tokens, b)
 }
 
